@@ -109,7 +109,12 @@ def model_state(p):
             except Exception:  # noqa: BLE001
                 val, cl = None, []
             imp.append({"p": pshort(part), "tree": tid, "val": val, "cl": cl})
-        cells.append(dict(a, imp_entries=imp, ntr_raw=bool(c._universe.not_truncated),
+        # the modifier classes with a node in the cell's parameters tree: the only way `format_for_mcnp_input` reaches them
+        try:
+            slots = sorted({prm["classifier"].prefix.value.lower() for prm in c._tree["parameters"].nodes.values()} & set(CLASSES))
+        except Exception as e:  # noqa: BLE001
+            slots = ["err:" + type(e).__name__]
+        cells.append(dict(a, imp_entries=imp, ntr_raw=bool(c._universe.not_truncated), slots=slots,
                           set_in=[bool(getattr(c, attrs[k]).set_in_cell_block) for k in CLASSES]))
     insts = {id(getattr(p.cells, attrs[k])): k for k in CLASSES}
     data_inputs = []
